@@ -253,11 +253,12 @@ def prov : BSProvider :=
               ("o1", { membership := none, status := .storeError })] }
 
 def store : Store :=
-  { segments := [seg, seg2, segOrg, segNoGen],
-    flags := [{ key := "pre", on := true, variations := [.bool false, .bool true],
-                rules := [{ vr := { variation := some 1 },
-                            clauses := [{ op := "segmentMatch", values := [.str "segOrg"] }] }],
-                fallthrough := { variation := some 0 } }] }
+  Store.ofLists
+    [{ key := "pre", on := true, variations := [.bool false, .bool true],
+       rules := [{ vr := { variation := some 1 },
+                   clauses := [{ op := "segmentMatch", values := [.str "segOrg"] }] }],
+       fallthrough := { variation := some 0 } }]
+    [seg, seg2, segOrg, segNoGen]
 
 def user : SCtx := { kind := "user", key := "u1" }
 def org : SCtx := { kind := "org", key := "o1" }
